@@ -189,8 +189,10 @@ class Session:
         if op == "unmarshal":
             try:
                 x = self.V(step["x"])
-            except (ValueError, StopIteration) as e:
-                if isinstance(e, ValueError) and str(e) != "rejected":
+            except (ValueError, StopIteration, RuntimeError) as e:
+                rejected = (isinstance(e, ValueError) and str(e) == "rejected") or isinstance(e, StopIteration) or \
+                    (isinstance(e, RuntimeError) and isinstance(e.__cause__, StopIteration))
+                if not rejected:
                     raise
                 # the input itself is an instance a (generated) user constructor refuses to build
                 self.probes["input_rejected_by_user_constructor"] += 1
